@@ -22,9 +22,10 @@ LEVEL_TEXT = ("For each language, programs covering every header style, methods 
               "must remove exactly it.")
 LEVEL_NOTE = "Comment leaders enumerated: '#', '//', '/* */' exactly (##, ///, /** are ambiguous in the statement and not enumerated). Bounds in evidence."
 
-POS_LINE = ["//nocl", "// nocl", "//   NOCL  some reason", "// NoCl"]
-POS_BLOCK = ["/*nocl*/", "/* nocl */", "/* NOCL some reason */"]
-POS_HASH = ["#nocl", "# nocl", "#   nocl  some reason", "# NOCL", "# NoCl"]
+# the marker may be followed by anything that is not a letter: space, end of comment, punctuation
+POS_LINE = ["//nocl", "// nocl", "//   NOCL  some reason", "// NoCl", "// nocl: generated code", "// NOCL, see docs", "//nocl- legacy"]
+POS_BLOCK = ["/*nocl*/", "/* nocl */", "/* NOCL some reason */", "/* NoCl; table-driven */", "/*nocl.*/"]
+POS_HASH = ["#nocl", "# nocl", "#   nocl  some reason", "# NOCL", "# NoCl", "# nocl: generated code", "# NOCL, see docs"]
 NEG_LINE = ["// see nocl", "// no cl", "// xnocl"]
 NEG_BLOCK = ["/* see nocl */"]
 NEG_HASH = ["# see nocl", "# no cl", "# xnocl"]
@@ -201,19 +202,29 @@ def eval_real(lang, src, name, thorough):
     out = []
     n = 0
     markers = (["# nocl"] if lang == "Python" else ["// nocl", "/* NOCL */"]) if thorough else (["# nocl"] if lang == "Python" else ["// nocl"])
+    # name line of every reported function; functions that enclose / are nested in another one are not markable
+    name_line = {}
+    span = {}
     for i, f in enumerate(base):
         s_off, e_off = oracle.pos_to_off(starts, f[1]), oracle.pos_to_off(starts, f[2])
-        others = [g for j, g in enumerate(base) if j != i]
-        if any(oracle.pos_to_off(starts, g[1]) <= s_off < oracle.pos_to_off(starts, g[2]) or s_off <= oracle.pos_to_off(starts, g[1]) < e_off for g in others):
-            continue  # encloses or is nested
-        name_tok = next((off for off, ty, val in toks if s_off <= off < e_off and ty in Name and val == f[0]), None)
-        if name_tok is None:
+        span[i] = (s_off, e_off)
+        nt = next((off for off, ty, val in toks if s_off <= off < e_off and ty in Name and val == f[0]), None)
+        name_line[i] = oracle.off_to_line(starts, nt) if nt is not None else None
+    involved = {i for i in span for j in span if i != j and (span[j][0] <= span[i][0] < span[j][1] or span[i][0] <= span[j][0] < span[i][1])}
+    by_line = {}
+    for i, ln in name_line.items():
+        if ln is not None:
+            by_line.setdefault(ln, []).append(i)
+    from pygments.token import Comment
+
+    comment_lines = {oracle.off_to_line(starts, off) for off, ty, val in oracle.lexer(lang).get_tokens_unprocessed(text) if ty in Comment}
+    for ln, idxs in sorted(by_line.items()):
+        if ln not in trail_safe or any(i in involved for i in idxs):
             continue
-        ln = oracle.off_to_line(starts, name_tok)
-        if ln not in trail_safe:
-            continue
-        if any(oracle.off_to_line(starts, oracle.pos_to_off(starts, g[1])) == ln or g[2][0] == ln for g in others):
-            continue  # another function's header shares the line (its name line would be marked too)
+        if ln in comment_lines:
+            continue  # text appended after an existing line comment would become part of THAT comment
+        i = idxs[0]
+        f = base[i]
         for mk in markers:
             new_lines = list(lines)
             new_lines[ln - 1] = new_lines[ln - 1] + "  " + mk
@@ -226,10 +237,10 @@ def eval_real(lang, src, name, thorough):
             except Exception as e:  # noqa
                 out.append(("analysis-raises", {"language": lang, "error": type(e).__name__}, {"function": f[0], "line": ln, "marker": mk}, repr(e)))
                 continue
-            want = [g for j, g in enumerate(base) if j != i]
+            want = [g for j, g in enumerate(base) if j not in idxs]  # every function whose NAME is on the marked line
             if got != want:
                 gn, wn = [g[0] for g in got], [g[0] for g in want]
-                kind = "marked-function-still-reported" if f in got else ("other-function-removed-or-added" if gn != wn else "other-function-changed")
+                kind = "marked-function-still-reported" if any(base[j] in got for j in idxs) else ("other-function-removed-or-added" if gn != wn else "other-function-changed")
                 out.append((kind, {"language": language_sig(lang), "positive": True, "form": "real-code"}, {"function": f[0], "line": ln, "marker": mk},
                             f"{name}: marking {f[0]} (line {ln}) with {mk!r}: reported {gn}, expected {wn}"))
     return n, out
